@@ -49,6 +49,7 @@ properties! {
     "C08" => c08,
     "C09" => c09,
     "C11" => c11,
+    "C12" => c12,
     "C13" => c13,
     "C14" => c14,
     "C16" => c16,
@@ -59,6 +60,7 @@ pub fn probes(ctx: &Ctx, id: &str) -> Vec<Probe> {
     match id {
         "C03" => c03::probes(ctx),
         "C09" => c09::probes(ctx),
+        "C12" => c12::probes(ctx),
         "C18" => c18::probes(ctx),
         _ => vec![],
     }
